@@ -54,14 +54,15 @@ Example ex_hist_spec : option_map snd (srun1 hist) =
   Some [OUnit; OUnit; OUnit; OUnit; OUnit; OUnit; OUnit; OUnit; OAgg (Some 20); OUnit; OUnit;
         OList [1; 10; 10; 4]; ORemoved 10; OElem (Some 1); OElem (Some 4); OSize 3].
 Proof. vm_compute. reflexivity. Qed.
-Example ex_hist_model : forall ps, snd (run1 ps hist) =
+Example ex_hist_model : forall ps, map (out_elem ax) (snd (run1 ps hist)) =
   [OUnit; OUnit; OUnit; OUnit; OUnit; OUnit; OUnit; OUnit; OAgg (Some 20); OUnit; OUnit;
-   OList [1; 10; 10; 4]; ORemoved 10; OElem (Some 1); OElem (Some 4); OSize 3].
+   OList [1; 10; 10; 4]; ORemoved 10; OElem (Some 1); OElem (Some 4); OSize 3]
+  /\ Forall (out_fresh asize ax asm zsum iaa_pending) (snd (run1 ps hist)).
 Proof.
   intros ps. destruct (srun1 hist) as [[sst outs]|] eqn:E; [|discriminate (f_equal (option_map snd) E)].
   pose proof ex_hist_spec as S. unfold srun1 in *. rewrite E in S. simpl in S. injection S as S.
-  destruct (c03_history _ _ _ _ _ _ _ _ _ _ _ _ _ iaa_lawful ps (map to_op1 hist) sst outs ex_hist_fresh E) as [H _].
-  unfold run1. unfold run_outputs in H. rewrite H. exact S.
+  destruct (c03_history _ _ _ _ _ _ _ _ _ _ _ _ _ iaa_lawful ps (map to_op1 hist) sst outs ex_hist_fresh E) as (H & Hf & _).
+  unfold run1. unfold run_outputs in H, Hf. rewrite H. split; [exact S|exact Hf].
 Qed.
 (** the model itself, on literals, for one stream *)
 Example ex_hist_run : snd (run1 [5; 5; 1; 9] hist) = snd (run1 [] hist).
@@ -97,11 +98,12 @@ Example ex_hhist_spec : spec_outputs 2 hhist =
   Some [OUnit; OUnit; OUnit; OUnit; OAgg (Some (hashf [1; 2; 3; 4])); OUnit; OUnit; OUnit; OAgg (Some (hashf [7; 8]));
         OUnit; OUnit; OAgg (Some (hashf [1; 7; 8; 4])); OList [1; 7; 8; 4]; ORemoved 1; OAgg (Some (hashf [7; 8; 4]))].
 Proof. vm_compute. reflexivity. Qed.
-Example ex_hhist_model : forall ps, Some (model_outputs 2 ps hhist) = spec_outputs 2 hhist.
+Example ex_hhist_model : forall ps,
+  Some (map (out_map idZ fst3) (map (out_elem hx) (snd (run2 ps hhist)))) = spec_outputs 2 hhist.
 Proof.
-  intros ps. unfold model_outputs, spec_outputs, run2, srun2.
+  intros ps. unfold spec_outputs, run2, srun2.
   destruct (srun hx Z.add hashagg [] (map to_op2 hhist)) as [[sst outs]|] eqn:E; [|discriminate (f_equal (option_map snd) E)].
-  destruct (c03_history _ _ _ _ _ _ _ _ _ _ _ _ _ ihs_lawful ps (map to_op2 hhist) sst outs ex_hhist_fresh E) as [H _].
+  destruct (c03_history _ _ _ _ _ _ _ _ _ _ _ _ _ ihs_lawful ps (map to_op2 hhist) sst outs ex_hhist_fresh E) as (H & _).
   unfold run_outputs in H. rewrite H. reflexivity.
 Qed.
 (** the model itself, on literals: two priority streams that build different shapes, same outputs *)
@@ -109,3 +111,51 @@ Example ex_hhist_run : model_outputs 2 [5; 5; 1; 9] hhist = model_outputs 2 [4; 
   /\ run_final ihs_update ihs_push hsz ihs_modify hx ihs_agg [5; 5; 1; 9] (map to_op2 hhist)
      <> run_final ihs_update ihs_push hsz ihs_modify hx ihs_agg [4; 3; 2; 1] (map to_op2 hhist).
 Proof. split; [vm_compute; reflexivity|]. vm_compute. discriminate. Qed.
+
+(** ---------- Move: remove_at followed by insert_at of the ITEM OBJECT that remove_at returned ----------
+    Build [10;20;30;40], attach +1 to the root, move position 1 to the end, observe; split, move across two treaps;
+    a move whose remove_at is out of range (panic, nothing inserted) and a move naming a treap that is not live. *)
+Definition mhist : list cop :=
+  [CFrom 10; CInsert 0 1 20; CInsert 0 2 30; CInsert 0 3 40; CMod 0 (MAdd 1);
+   CMove 0 1 0 3; CSize 0; CAgg 0; CCollect 0; CSplitAt 0 2; CCollect 0; CCollect 1;
+   CFrom 5; CMove 0 0 2 1; CCollect 2; CSize 2; CSize 0; CMove 0 7 2 0; CMove 5 0 0 0].
+Example ex_mhist_fresh : Forall (op_fresh isize ix ism zsum isz_pending) (map to_op0 mhist).
+Proof. repeat constructor; apply isz_fresh. Qed.
+Example ex_mhist_spec : spec_outputs 0 mhist =
+  Some [OUnit; OUnit; OUnit; OUnit; OUnit; ORemoved 21; OSize 4; OAgg (Some 104); OList [11; 31; 41; 21]; OUnit;
+        OList [11; 31]; OList [41; 21]; OUnit; ORemoved 11; OList [5; 11]; OSize 2; OSize 1; OPanic; OInvalid].
+Proof. vm_compute. reflexivity. Qed.
+(** for EVERY priority stream the model gives these outputs, and every item that remove_at handed out is Fresh *)
+Example ex_mhist_model : forall ps, Some (map (out_elem ix) (snd (run0 ps mhist))) = spec_outputs 0 mhist
+  /\ Forall (out_fresh isize ix ism zsum isz_pending) (snd (run0 ps mhist)).
+Proof.
+  intros ps. unfold spec_outputs, run0, srun0.
+  destruct (srun ix Z.add zsum [] (map to_op0 mhist)) as [[sst outs]|] eqn:E; [|discriminate (f_equal (option_map snd) E)].
+  destruct (c03_history _ _ _ _ _ _ _ _ _ _ _ _ _ isz_lawful ps (map to_op0 mhist) sst outs ex_mhist_fresh E) as (H & Hf & _).
+  unfold run_outputs in H, Hf. rewrite H. split; [reflexivity|exact Hf].
+Qed.
+(** the model on literals, priorities [2;0;1;3]: the node removed by the first move is the ROOT, with two children
+    and the pending +1; the item it returns is complete and clean (element 21, aggregate 21, size 1, nothing pending) *)
+Example ex_mhist_shape :
+  fst (fst (run0 [2; 0; 1; 3] [CFrom 10; CInsert 0 1 20; CInsert 0 2 30; CInsert 0 3 40; CMod 0 (MAdd 1)]))
+  = [Nd (Nd E (ISz 10 10 1 0) 2 E) (ISz 21 104 4 1) 0 (Nd E (ISz 30 70 2 0) 1 (Nd E (ISz 40 40 1 0) 3 E))].
+Proof. vm_compute. reflexivity. Qed.
+Example ex_mhist_run : model_outputs 0 [2; 0; 1; 3; 0; 9; 0] mhist =
+  [OUnit; OUnit; OUnit; OUnit; OUnit; ORemoved (RItem 21 21 1 0 0 0); OSize 4; OAgg (Some 104); OList [11; 31; 41; 21]; OUnit;
+   OList [11; 31]; OList [41; 21]; OUnit; ORemoved (RItem 11 11 1 0 0 0); OList [5; 11]; OSize 2; OSize 1; OPanic; OInvalid]
+  /\ nth 5 (model_outputs 2 [2; 0; 1; 3; 0; 9; 0] mhist) OUnit = ORemoved (RItem 21 21 1 0 30011 1).
+Proof. split; vm_compute; reflexivity. Qed.
+(** c03_remove_at, third part: the hypothesis is met by t3 (pending +100 at the root), the returned item is Fresh *)
+Example ex_remove_fresh : Fresh isize ix ism zsum isz_pending (ISz 111 111 1 0).
+Proof.
+  destruct (remove_at isz_update isz_push isize t3 2) as [t' res] eqn:E.
+  destruct (c03_remove_at _ _ _ _ _ _ _ _ _ _ _ _ _ isz_lawful t3 2 _ t' res ex_rep E) as (_ & _ & Hf).
+  apply Hf. pose proof ex_remove as R. rewrite E in R. exact R.
+Qed.
+(** [spec_check] rejects a returned item that still carries its former subtree's aggregate and size (what an
+    unlink-without-update remove_at returns for [10;20], position 1 being the root), and accepts the clean one *)
+Example ex_spec_rejects_stale :
+  spec_check (Case 0 [CFrom 10; CInsert 0 1 20; CRemove 0 1] [5; 1] (Some [OUnit; OUnit; ORemoved (RItem 20 30 2 0 0 0)])) = false
+  /\ spec_check (Case 0 [CFrom 10; CInsert 0 1 20; CRemove 0 1] [5; 1] (Some [OUnit; OUnit; ORemoved (RItem 20 20 1 0 0 0)])) = true
+  /\ model_check (Case 0 [CFrom 10; CInsert 0 1 20; CRemove 0 1] [5; 1] (Some [OUnit; OUnit; ORemoved (RItem 20 20 1 0 0 0)])) = true.
+Proof. repeat split; vm_compute; reflexivity. Qed.
